@@ -860,4 +860,54 @@ theorem Good.step {w : World} {os : List Nat} {ss : List (List Val)} (g : Good w
           (by intro j' b' hj' hb' ho; exact g.inj j j' b b' harg hj' hb1 hb' (by simpa using ho))
         simpa [exec, execWith, specOriginStep, specSourcesStep, hm, O, S, World.argVal, hc] using key
 
+
+theorem exec_vals_length (w : World) (c : Cmd) : (exec w c).vals.length = w.vals.length + 1 := by
+  cases c <;> simp [exec, execWith]
+
+theorem Good.empty : Good {} [] [] := by
+  have hobj : ∀ a, obj [] a = {} := fun a => by simp [obj]
+  refine ⟨⟨?_, ?_, ?_⟩, rfl, rfl, ?_, ?_⟩
+  · intro a; left; rw [hobj]
+  · intro a s; rw [hobj]; simp
+  · intro a _; rw [hobj]
+  · intro i hi; simp at hi
+  · intro i j a b hi; simp at hi
+
+theorem Good.foldl {cmds : List Cmd} : ∀ {w : World} {os : List Nat} {ss : List (List Val)}, Good w os ss →
+    inDomain w.vals.length cmds = true →
+    Good (cmds.foldl exec w) (cmds.foldl specOriginStep os) (cmds.foldl specSourcesStep ss) := by
+  induction cmds with
+  | nil => intro w os ss g _; exact g
+  | cons c cs ih =>
+    intro w os ss g hd
+    simp only [inDomain, Bool.and_eq_true] at hd
+    simp only [List.foldl_cons]
+    apply ih (g.step c hd.1)
+    rw [exec_vals_length]; exact hd.2
+
+/-- every in-domain history leads to a good world -/
+theorem good_run {cmds : List Cmd} (hd : inDomain 0 cmds = true) :
+    Good (run cmds) (specOrigins cmds) (cmds.foldl specSourcesStep []) :=
+  Good.foldl Good.empty hd
+
+theorem Good.O_idem {w : World} {os : List Nat} {ss : List (List Val)} (g : Good w os ss) {i : Nat}
+    (hi : i < w.vals.length) : O os (O os i) = O os i := by
+  obtain ⟨a, h1, h2, _, _, h5, h6⟩ := g.val i hi
+  obtain ⟨a', h1', _⟩ := g.val (O os i) h5
+  have : a' = origin w.h a := by rw [h1'] at h6; injection h6
+  subst this
+  exact g.inj (O os i) i _ a h5 hi h1' h1 (g.wf.origin_idem a)
+
+theorem Good.same_iff {w : World} {os : List Nat} {ss : List (List Val)} (g : Good w os ss) {i j a b : Nat}
+    (hi : i < w.vals.length) (hj : j < w.vals.length) (ha : embedded (w.val i) = some a)
+    (hb : embedded (w.val j) = some b) : origin w.h a = origin w.h b ↔ O os i = O os j := by
+  constructor
+  · exact g.inj i j a b hi hj ha hb
+  · intro ho
+    obtain ⟨a', h1, _, _, _, _, h6⟩ := g.val i hi
+    obtain ⟨b', h1', _, _, _, _, h6'⟩ := g.val j hj
+    rw [ha] at h1; injection h1 with h1; subst h1
+    rw [hb] at h1'; injection h1' with h1'; subst h1'
+    rw [ho, h6'] at h6; injection h6 with h6; exact h6.symm
+
 end GErrorIs
